@@ -64,6 +64,7 @@ class _FileNode:
         self.path = path
         self.root = _GroupNode()
         self.attrs = self.root.attrs
+        self.opens = []   # open records: dict(open=bool, mode=str)
 
 
 class SoftLink:
@@ -77,8 +78,8 @@ class ExternalLink:
 
 
 class _ObjID:
-    def __init__(self, fnode, node, name, mode):
-        self.fnode, self.node, self.name, self.mode = fnode, node, name, mode
+    def __init__(self, fnode, node, name, mode, rec=None):
+        self.fnode, self.node, self.name, self.mode, self.rec = fnode, node, name, mode, rec
 
     @property
     def valid(self):
@@ -272,7 +273,7 @@ class HLObject:
     @property
     def file(self):
         f = File.__new__(File)
-        HLObject.__init__(f, _ObjID(self._id.fnode, self._id.fnode.root, "/", self._id.mode))
+        HLObject.__init__(f, _ObjID(self._id.fnode, self._id.fnode.root, "/", self._id.mode, self._id.rec))
         return f
 
     @property
@@ -307,41 +308,48 @@ class Group(HLObject):
         return "/" if p in ("//", ".") else p
 
     def _walk(self, path, follow_last=True, depth=0):
-        """resolve to (fnode, node, abs name); raises KeyError"""
+        """resolve to (fnode, node, name); raises KeyError. Relative paths start at this group's node (so that
+        groups reached through soft/external links resolve their members correctly)"""
         if depth > 16:
             raise KeyError("too many levels of links")
-        ap = self._abs(path)
+        if isinstance(path, bytes):
+            path = path.decode()
         fnode = self._id.fnode
-        node = fnode.root
-        parts = [x for x in ap.split("/") if x]
+        if path.startswith("/"):
+            node = fnode.root
+            name = "/"
+        else:
+            node = self._id.node
+            name = self._id.name
+        parts = [x for x in posixpath.normpath(path).split("/") if x and x != "."]
         for i, part in enumerate(parts):
+            if part == "..":
+                raise Inconclusive("'..' in an HDF5 path")
             if not isinstance(node, _GroupNode) or part not in node.children:
                 raise KeyError(f"Unable to synchronously open object (object '{part}' doesn't exist)")
             link = node.children[part]
             last = i == len(parts) - 1
+            here = Group(_ObjID(fnode, node, name, self._id.mode, self._id.rec))
+            name = posixpath.join(name, part)
             if link[0] == "hard":
                 node = link[1]
             elif link[0] == "soft":
                 if last and not follow_last:
-                    return fnode, link, ap
-                sub = Group(_ObjID(fnode, fnode.root, "/", self._id.mode))
-                tgt = link[1] if link[1].startswith("/") else posixpath.join("/" + "/".join(parts[:i]), link[1])
-                fnode2, node, _ = sub._walk(tgt, True, depth + 1)
-                if fnode2 is not fnode:
-                    fnode = fnode2
+                    return fnode, link, name
+                fnode, node, _ = here._walk(link[1], True, depth + 1)
             else:
                 if last and not follow_last:
-                    return fnode, link, ap
+                    return fnode, link, name
                 k = _key(link[1] if os.path.isabs(link[1]) else os.path.join(os.path.dirname(fnode.path), link[1]))
-                if k not in _REG:
+                if k not in _REG or not os.path.exists(k):
                     raise KeyError("Unable to synchronously open object (unable to open external file)")
-                fnode = _REG[k]
-                sub = Group(_ObjID(fnode, fnode.root, "/", "r"))
-                fnode, node, _ = sub._walk(link[2], True, depth + 1)
-        return fnode, node, ap
+                tgt = _REG[k]
+                # h5py names an object reached through an external link by its path in the target file
+                fnode, node, name = Group(_ObjID(tgt, tgt.root, "/", "r"))._walk(link[2], True, depth + 1)
+        return fnode, node, name
 
     def _handle(self, fnode, node, name):
-        oid = _ObjID(fnode, node, name, self._id.mode)
+        oid = _ObjID(fnode, node, name, self._id.mode, self._id.rec)
         if isinstance(node, _DatasetNode):
             return Dataset(oid)
         return Group(oid)
@@ -399,7 +407,9 @@ class Group(HLObject):
         self._writable()
         parent, leaf, ap = self._parent_and_leaf(path, create=True)
         if leaf in parent.children:
-            raise OSError(f"Unable to synchronously create link (name already exists)")
+            if isinstance(obj, ExternalLink):   # (sic) h5py: RuntimeError for external, OSError for soft and hard links
+                raise RuntimeError("Unable to synchronously create link (name already exists)")
+            raise OSError("Unable to synchronously create link (name already exists)")
         if isinstance(obj, HLObject):
             if obj._id.fnode is not self._id.fnode:
                 raise OSError("Unable to create link (interfile hard links are not allowed)")
@@ -419,7 +429,7 @@ class Group(HLObject):
         del parent.children[leaf]
 
     def keys(self):
-        return list(self._id.node.children.keys())
+        return sorted(self._id.node.children.keys())  # h5py's default name index: alphabetical
 
     def __iter__(self):
         return iter(self.keys())
@@ -428,10 +438,10 @@ class Group(HLObject):
         return len(self._id.node.children)
 
     def values(self):
-        return [self[k] for k in self.keys()]
+        return [self.get(k) for k in self.keys()]
 
     def items(self):
-        return [(k, self[k]) for k in self.keys()]
+        return [(k, self.get(k)) for k in self.keys()]
 
     def create_group(self, path, track_order=None):
         self._writable()
@@ -443,7 +453,7 @@ class Group(HLObject):
             raise ValueError("Unable to synchronously create group (name already exists)")
         node = _GroupNode()
         parent.children[leaf] = ("hard", node)
-        return Group(_ObjID(self._id.fnode, node, ap, self._id.mode))
+        return Group(_ObjID(self._id.fnode, node, ap, self._id.mode, self._id.rec))
 
     def require_group(self, path):
         if path in self:
@@ -473,6 +483,10 @@ class Group(HLObject):
             else:
                 dtype = data.dtype if hasattr(data, "dtype") and not hasattr(data, "_col") else _to_items(data)[1]
         dt = _np.dtype(dtype)
+        en = _h5.check_dtype(enum=dt)
+        if en is not None and any(isinstance(k, bytes) for k in en):
+            # HDF5 stores enum member names as text: what comes back from a file are str keys
+            dt = _h5.special_dtype(enum=(_np.dtype(dt.str), {(k.decode() if isinstance(k, bytes) else k): v for k, v in en.items()}))
         if dt.kind == "O" and _h5.check_dtype(vlen=dt) is None and _h5.check_dtype(enum=dt) is None:
             raise TypeError("Object dtype dtype('O') has no native HDF5 equivalent")
         if dt.kind == "U":
@@ -519,7 +533,7 @@ class Group(HLObject):
             maxshape = (ms,)
         node = _DatasetNode(store, dt, maxshape, fillvalue)
         parent.children[leaf] = ("hard", node)
-        return Dataset(_ObjID(self._id.fnode, node, ap, self._id.mode))
+        return Dataset(_ObjID(self._id.fnode, node, ap, self._id.mode, self._id.rec))
 
     def require_dataset(self, name, shape, dtype, **kw):
         if name in self:
@@ -530,7 +544,10 @@ class Group(HLObject):
         if isinstance(source, HLObject):
             snode, sname = source._id.node, source._id.name
         else:
-            _, snode, sname = self._walk(source)
+            try:
+                _, snode, sname = self._walk(source)
+            except KeyError:
+                raise RuntimeError(f"Unable to synchronously copy object (object '{source}' doesn't exist)") from None
         if isinstance(dest, HLObject):
             dgrp = dest
             if name is None:
@@ -545,7 +562,7 @@ class Group(HLObject):
             raise ValueError("Unable to copy object (destination name required)")
         parent, leaf, ap = dgrp._parent_and_leaf(name, create=True)
         if leaf in parent.children:
-            raise ValueError("Unable to synchronously copy object (destination object already exists)")
+            raise RuntimeError("Unable to synchronously copy object (destination object already exists)")
         parent.children[leaf] = ("hard", _deepcopy(snode))
 
     def move(self, source, dest):
@@ -610,6 +627,8 @@ class File(Group):
                 raise FileExistsError(f"[Errno 17] Unable to synchronously create file (unable to open file: name = '{name}')")
             fnode, m = self._create(key), "r+"
         elif mode == "w":
+            if key in _REG and any(r["open"] for r in _REG[key].opens):
+                raise OSError("Unable to synchronously create file (unable to truncate a file which is already open)")
             fnode, m = self._create(key), "r+"
         elif mode == "a":
             if exists:
@@ -621,9 +640,15 @@ class File(Group):
             m = "r+"
         else:
             raise ValueError("Invalid mode; must be one of r, r+, w, w-, x, a")
-        HLObject.__init__(self, _ObjID(fnode, fnode.root, "/", m))
+        fnode.opens = [r for r in fnode.opens if r["open"]]
+        if m == "r+" and any(r["mode"] == "r" for r in fnode.opens):
+            raise OSError("Unable to synchronously open file (file is already open for read-only)")
+        if m == "r" and any(r["mode"] == "r+" for r in fnode.opens):
+            m = "r+"  # h5py hands back the already open read-write file
+        rec = dict(open=True, mode=m)
+        fnode.opens.append(rec)
+        HLObject.__init__(self, _ObjID(fnode, fnode.root, "/", m, rec))
         self._filename = os.fspath(name) if not isinstance(name, bytes) else name.decode()
-        self._open = True
 
     @staticmethod
     def _create(key):
@@ -644,7 +669,8 @@ class File(Group):
         return self._id.mode
 
     def close(self):
-        self._open = False
+        if self._id.rec is not None:
+            self._id.rec["open"] = False
 
     def flush(self):
         pass
